@@ -25,8 +25,10 @@ Lemma pal_read_robust fuel p : robust (pal_read fuel p).
 Proof.
   destruct p as [v0|vals cap pb|vals cap pb|]; cbn [pal_read]; unfold read_sized;
     try (apply robust_bind; [apply read32_robust|]; intros [v m]); try constructor.
-  - destruct (v <? 0); [constructor|]. apply robust_bind; [apply read_vals_robust|]. intros [vs k]. constructor.
-  - destruct (v <? 0); [constructor|]. apply robust_bind; [apply read_vals_robust|]. intros [vs k]. constructor.
+  - destruct (v <? 0); [constructor|]. destruct (2 ^ pb <? v); [constructor|].
+    apply robust_bind; [apply read_vals_robust|]. intros [vs k]. constructor.
+  - destruct (v <? 0); [constructor|]. destruct (2 ^ pb <? v); [constructor|].
+    apply robust_bind; [apply read_vals_robust|]. intros [vs k]. constructor.
 Qed.
 
 Lemma read_vals_image : forall vals fuel acc n rest, Forall (in_sw 32) vals -> (length vals <= fuel)%nat ->
@@ -65,15 +67,16 @@ Proof.
   intros Hc Hp Hf. destruct cf as [kd g]. unfold wfcfg in Hc. cbn [ckind gbits] in Hc.
   assert (SW : forall vals, Forall (inreg (mkCfg kd g)) vals -> Forall (in_sw 32) vals).
   { intros vals H. eapply Forall_impl; [|exact H]. intros a. apply inreg_sw. exact Hc. }
-  assert (SIZED : forall vals cap0 (mk : list Z -> Z -> pal), Forall (inreg (mkCfg kd g)) vals ->
-            (length vals <= fuel)%nat -> zlen vals <= cap0 -> zlen vals < 2 ^ 31 ->
-            run_flat (read_sized fuel cap0 mk) ((write32 (zlen vals) ++ concat (map write32 vals)) ++ rest) =
+  assert (SIZED : forall vals cap0 pb0 (mk : list Z -> Z -> pal), Forall (inreg (mkCfg kd g)) vals ->
+            (length vals <= fuel)%nat -> zlen vals <= cap0 -> zlen vals < 2 ^ 31 -> zlen vals <= 2 ^ pb0 ->
+            run_flat (read_sized fuel cap0 pb0 mk) ((write32 (zlen vals) ++ concat (map write32 vals)) ++ rest) =
             FOk (mk vals cap0, lenN (write32 (zlen vals) ++ concat (map write32 vals))) rest).
-  { intros vals cap0 mk Hr Hl Hcap H31. unfold read_sized. rewrite <- app_assoc.
+  { intros vals cap0 pb0 mk Hr Hl Hcap H31 Hpb. unfold read_sized. rewrite <- app_assoc.
     rewrite run_flat_bind by apply read32_robust.
     pose proof (zlen_nonneg vals).
     rewrite read32_write32 by (unfold in_sw; change (Z.of_N 32 - 1) with 31; lia).
     destruct (Z.ltb_spec (zlen vals) 0); [lia|].
+    destruct (Z.ltb_spec (2 ^ pb0) (zlen vals)); [lia|].
     rewrite run_flat_bind by apply read_vals_robust.
     rewrite read_vals_image by (auto). cbn [rev app run_flat].
     rewrite Z.max_l by lia. rewrite lenN_app, N.add_0_l. reflexivity. }
@@ -234,13 +237,15 @@ Proof.
     destruct (run_flat read32 s) as [[v m] rest| | |]; try contradiction; cbn; discriminate.
   - rewrite run_flat_bind by apply read32_robust. pose proof (read32_cap s) as Hc.
     destruct (run_flat read32 s) as [[v m] rest| | |] eqn:E; try contradiction; try discriminate.
-    destruct (v <? 0); [cbn; discriminate|]. rewrite run_flat_bind by apply read_vals_robust.
+    destruct (v <? 0); [cbn; discriminate|]. destruct (2 ^ pb <? v); [cbn; discriminate|].
+    rewrite run_flat_bind by apply read_vals_robust.
     apply read32_consumes in E.
     pose proof (read_vals_no_fuel fuel rest v [] 0%N ltac:(lia)) as Hn.
     destruct (run_flat (read_vals fuel v [] 0%N) rest) as [[vs k] r| | |]; try contradiction; cbn; discriminate.
   - rewrite run_flat_bind by apply read32_robust. pose proof (read32_cap s) as Hc.
     destruct (run_flat read32 s) as [[v m] rest| | |] eqn:E; try contradiction; try discriminate.
-    destruct (v <? 0); [cbn; discriminate|]. rewrite run_flat_bind by apply read_vals_robust.
+    destruct (v <? 0); [cbn; discriminate|]. destruct (2 ^ pb <? v); [cbn; discriminate|].
+    rewrite run_flat_bind by apply read_vals_robust.
     apply read32_consumes in E.
     pose proof (read_vals_no_fuel fuel rest v [] 0%N ltac:(lia)) as Hn.
     destruct (run_flat (read_vals fuel v [] 0%N) rest) as [[vs k] r| | |]; try contradiction; cbn; discriminate.
@@ -258,4 +263,49 @@ Proof.
   pose proof (read_total (cdata c) s1) as Ht.
   destruct (run_flat (bs_read (cdata c)) s1) as [[d1 n2] s2| | |]; try contradiction; try discriminate.
   destruct (bs_fix d1 _) as [d2 o]. destruct o; cbn; discriminate.
+Qed.
+
+(* ---------- the declared palette length is tested before anything is allocated for it ---------- *)
+Definition indirect (p : pal) (cap pb : Z) : Prop := exists vals, p = PLinear vals cap pb \/ p = PHash vals cap pb.
+
+(* a declared length above 1<<bits is refused as soon as the length has been read - with the same
+   error whatever follows, before any entry is read: the make([]T, size) of the code is never reached *)
+Theorem palette_alloc_refused fuel p cap pb s size n0 rest0 : indirect p cap pb ->
+  run_flat read32 s = FOk (size, n0) rest0 -> 2 ^ pb < size ->
+  run_flat (pal_read fuel p) s = FErr eBigPal.
+Proof.
+  intros [vals [-> | ->]] H Hb; cbn [pal_read]; unfold read_sized;
+    rewrite run_flat_bind by apply read32_robust; rewrite H; cbv beta iota;
+    (destruct (Z.ltb_spec size 0); [assert (0 < 2 ^ pb) by (destruct (Z.le_gt_cases 0 pb); [apply Z.pow_pos_nonneg; lia|rewrite Z.pow_neg_r in Hb by lia; lia]); lia|]);
+    (destruct (Z.ltb_spec (2 ^ pb) size); [reflexivity|lia]).
+Qed.
+
+Lemma read_vals_len : forall fuel cnt acc n s vs m rest,
+  run_flat (read_vals fuel cnt acc n) s = FOk (vs, m) rest -> zlen vs = zlen acc + Z.max 0 cnt.
+Proof.
+  induction fuel as [|f IH]; intros cnt acc n s vs m rest H; cbn [read_vals] in H.
+  - destruct (Z.leb_spec cnt 0); [|discriminate]. cbn in H. inversion H; subst. unfold zlen. rewrite rev_length. lia.
+  - destruct (Z.leb_spec cnt 0).
+    + cbn in H. inversion H; subst. unfold zlen. rewrite rev_length. lia.
+    + rewrite run_flat_bind in H by apply read32_robust.
+      destruct (run_flat read32 s) as [[v k] r| | |]; try discriminate.
+      apply IH in H. unfold zlen in *. cbn [length] in H. lia.
+Qed.
+
+(* what an accepted palette looks like: as many entries as declared, at most 1<<bits of them, so the
+   slice the code makes for them has at most max(cap, 1<<bits) elements *)
+Theorem palette_alloc_bounded fuel p cap pb s p' n rest : indirect p cap pb -> 0 <= pb ->
+  run_flat (pal_read fuel p) s = FOk (p', n) rest ->
+  exists vs cp, (p' = PLinear vs cp pb \/ p' = PHash vs cp pb) /\ zlen vs <= 2 ^ pb /\ cp = Z.max cap (zlen vs) /\
+                cp <= Z.max cap (2 ^ pb).
+Proof.
+  intros [vals [-> | ->]] Hpb H; cbn [pal_read] in H; unfold read_sized in H;
+    rewrite run_flat_bind in H by apply read32_robust;
+    (destruct (run_flat read32 s) as [[size k] r| | |]; try discriminate);
+    (destruct (Z.ltb_spec size 0); [discriminate|]);
+    (destruct (Z.ltb_spec (2 ^ pb) size); [discriminate|]);
+    rewrite run_flat_bind in H by apply read_vals_robust;
+    (destruct (run_flat (read_vals fuel size [] 0%N) r) as [[vs m] r2| | |] eqn:E; try discriminate);
+    apply read_vals_len in E; change (zlen []) with 0 in E; cbn in H; inversion H; subst;
+    exists vs, (Z.max cap size); (split; [auto|]); repeat split; lia.
 Qed.
